@@ -10,8 +10,35 @@ use prost::Message;
 use serde_json::{json, Value};
 use std::collections::HashMap;
 
+/// "<operator>@<place>": the operator somewhere else than first in a check's first expression
+fn placed_snippet(f: &str) -> Option<String> {
+    let (op, place) = f.split_once('@')?;
+    // (the operator alone, the operator after an older binary operator of the same expression)
+    let (plain, after) = match op {
+        "op_bitand" => ("($x & 3) > 0", "($x + 1 & 3) > 0"),
+        "op_bitor" => ("($x | 3) > 0", "($x + 1 | 3) > 0"),
+        "op_bitxor" => ("($x ^ 3) > 0", "($x + 1 ^ 3) > 0"),
+        "op_strict_noteq" => ("$x !== 9", "$x + 1 !== 9"),
+        "hetero_eq" => ("$x == 1", "$x + 0 == 1"),
+        "hetero_neq" => ("$x != 9", "$x + 1 != 9"),
+        "typeof" => ("$x.type() === \"integer\"", "($x + 1).type() === \"integer\""),
+        "closure_lazy_or" => ("$x > 0 || $x < 9", "$x + 1 > 0 || $x < 9"),
+        o => panic!("unknown placed operator {o}"),
+    };
+    Some(match place {
+        "after_older" => format!("check if f($x), {after};"),
+        "second_expr" => format!("check if f($x), $x > 0, {plain};"),
+        "second_alt" => format!("check if f(0) or f($x), {plain};"),
+        "in_rule" => format!("r($x) <- f($x), {after};"),
+        o => panic!("unknown place {o}"),
+    })
+}
+
 /// Datalog snippet exercising exactly one feature (plus 3.0 material)
 fn snippet(f: &str) -> (&'static str, bool) {
+    if let Some(s) = placed_snippet(f) {
+        return (Box::leak(s.into_boxed_str()), false);
+    }
     // (code, needs block-level scope)
     match f {
         "plain_fact" => ("f(1);", false),
